@@ -125,6 +125,8 @@ let explore c nw maxsends sizes kinds maxstates errs =
     let (s, b, path) = Queue.pop q in
     if not (inv_ok c s) then begin
       incr invbad; if !iwit = "" then iwit := String.concat " " (List.rev path) ^ " => " ^ state_s s end;
+    if quiescent_app s && not (in_kf_class s) && not (app_ok c s) && zi c.sb <= zi c.hw && zi c.hw >= 1 then begin
+      incr bad; if !wit = "" then wit := "APP " ^ String.concat " " (List.rev path) ^ " => " ^ state_s s end;
     if quiescent s then begin
       incr quies;
       if not (c05_ok s) then begin
